@@ -29,7 +29,7 @@ func TestC04(t *testing.T) {
 			nStores := rapid.IntRange(2, 4).Draw(rt, "nStores")
 			h := newHist(nStores, 0)
 			o := drawOpts(rt, "iavlCache", false)
-			onDisk := rapid.IntRange(0, 15).Draw(rt, "onDisk") == 0
+			onDisk := rapid.IntRange(0, 15).Draw(rt, "onDisk") == 7
 			c.Opf("stores=%d iavlCache=%d disk=%v", nStores, o.iavlCache, onDisk)
 			ck := &checker{c: c, prop: "C04"}
 
